@@ -183,7 +183,7 @@ func Judge(k *run.K, domain string, a, b geom.Geometry) {
 
 func runAll(c *run.Ctx) {
 	// 8 operand kinds: 6 plain types, disjoint collection, typed empty
-	perPair := c.N(60, 1500)
+	perPair := c.N(450, 4000)
 	for ka := 0; ka < 8; ka++ {
 		for kb := 0; kb < 8; kb++ {
 			n := perPair
